@@ -47,14 +47,27 @@ def run(chk, repo):
     chk.ob('C20.a', 'exactly one decoy record appended on every non-raising path', gen.where, bad is None,
            'a non-raising path of generate_decoy_sequence appends no / several decoy records', key=gen.qual + '::once',
            path=bad.describe(gen.module.relpath) if bad else None, fn=gen.qual)
-    app = [c for c in G.find_calls(gen.node, 'append') if unparse(c.func.value) == 'self.decoy_db']
-    ok = len(app) == 1 and unparse(app[0].args[0]) == 'SeqRecord(decoy_seq, description=decoy_header)'
-    chk.ob('C20.a', 'the appended record carries decoy_seq and decoy_header', gen.where, ok, 'decoy record construction altered', key=gen.qual + '::record', fn=gen.qual)
-    hd = [n for n in walk_no_nested(gen.node) if isinstance(n, ast.If) and unparse(n.test) == "self.decoy_string_position == 'prefix'"]
-    ok = len(hd) == 1 and [norm_stmt(s) for s in hd[0].body] == ['decoy_header = self.decoy_string + seq.description'] and \
-        [norm_stmt(s) for s in hd[0].orelse] == ['decoy_header = seq.description + self.decoy_string']
+    # E9 partial evaluation: what record is appended when the decoy string goes in front / behind (the generation method fixed to 'reverse')
+    from sa.peval import PEval, show as _show20
+    tparam = [a.arg for a in gen.node.args.args if a.arg != 'self']
+    hdr = {}
+    rec_ok = bool(tparam)
+    for pos in ('prefix', 'suffix'):
+        pe20 = PEval(record=('SeqRecord',))
+        outs20 = [o for o in pe20.run(gen.node, {'self.decoy_string_position': pos, 'self.method': 'reverse'}) if o.kind != 'raise']
+        descs, seqs = set(), set()
+        for o in outs20:
+            for c in o.calls:
+                if c['name'] == 'SeqRecord':
+                    descs.add(_show20(c['kwargs'].get('description')))
+                    seqs.add(_show20(c['args'][0]) if c['args'] else _show20(c['kwargs'].get('seq')))
+        hdr[pos] = sorted(descs)
+        rec_ok = rec_ok and len(seqs) == 1 and 'reverse_sequence(' in next(iter(seqs))
+    chk.ob('C20.a', 'the appended record carries decoy_seq and decoy_header', gen.where, rec_ok, f"decoy record construction altered: {hdr}", key=gen.qual + '::record', fn=gen.qual)
+    T = tparam[0] if tparam else 'seq'
+    ok = hdr.get('prefix') == [f'self.decoy_string + {T}.description'] and hdr.get('suffix') == [f'{T}.description + self.decoy_string']
     chk.ob('C20.a', 'decoy header = decoy string attached to the unchanged target header (prefix / suffix)', gen.where, ok,
-           'decoy header construction altered', key=gen.qual + '::header', fn=gen.qual)
+           f"decoy header construction altered: prefix -> {hdr.get('prefix')}, otherwise -> {hdr.get('suffix')}", key=gen.qual + '::header', fn=gen.qual)
     methods = {}
     for n in walk_no_nested(gen.node):
         if isinstance(n, ast.If) and unparse(n.test).startswith('self.method == '):
